@@ -67,6 +67,14 @@ def at_end(world, beh):
   if not clears:
     return None
   last = clears[-1]
+  # an unlock_config block that was entered before the clear restores, on exit, the lock state it saved on entry
+  # (property C12) - a fresh process has no such block, so these histories are left to the step-by-step comparison
+  depth = 0
+  for o in ops[:last]:
+    depth += (o['op'] == 'UnlockEnter') - (o['op'] == 'UnlockExit')
+  if depth > 0:
+    STATS['skipped_clear_inside_unlock_block'] = STATS.get('skipped_clear_inside_unlock_block', 0) + 1
+    return None
   STATS['differential_runs'] += 1
   o1 = _observe(world)
   seed = world.pool_seed
